@@ -23,6 +23,7 @@ import (
 	"os"
 	"os/exec"
 	"path/filepath"
+	"regexp"
 	"runtime"
 	"runtime/debug"
 	"strings"
@@ -528,6 +529,16 @@ func (d *driver) fail(what, key string, rq *request, extra map[string]interface{
 	d.st.ImplFailures = append(d.st.ImplFailures, m)
 }
 
+var fixedTypeRe = regexp.MustCompile(`"type":"[^"]*fixed`)
+
+// requestHasFixedPoint: some type string of the request (entry parameters, error definitions, at any
+// component depth) names a fixed-point type; used to classify an unstable case when the caller has
+// no type tree at hand (event / error / call-data requests)
+func requestHasFixedPoint(rq *request) bool {
+	b, _ := json.Marshal(rq)
+	return fixedTypeRe.Match(b)
+}
+
 // run sends the request through the worker and applies the implementation-only oracles.
 func (d *driver) run(rq *request, t *T, mut string) *response {
 	cur, _ := json.Marshal(map[string]interface{}{"request": rq, "mutation": mut})
@@ -559,7 +570,7 @@ func (d *driver) run(rq *request, t *T, mut string) *response {
 		}
 	default:
 		key := ""
-		if t != nil && t.hasFixedPoint() {
+		if (t != nil && t.hasFixedPoint()) || (t == nil && requestHasFixedPoint(rq)) {
 			key = "C11/fixed-point-reencode"
 		}
 		d.st.Hit("stable:NO")
